@@ -6,33 +6,35 @@ open VtlModel.Errors
 /-- _map_query_error (io/_execution.py) — falls through to the raw error -/
 def mapper0 : List Rule := [
   -- line 77: 'vtl error 2-1-19-20' -> 2-1-19-20
-  ⟨(.has [118, 116, 108, 32, 101, 114, 114, 111, 114, 32, 50, 45, 49, 45, 49, 57, 45, 50, 48]), [⟨2, 704, [164], false⟩]⟩,
+  ⟨(.has [118, 116, 108, 32, 101, 114, 114, 111, 114, 32, 50, 45, 49, 45, 49, 57, 45, 50, 48]), [⟨2, 712, [164], false⟩]⟩,
   -- line 82: 'vtl error 2-1-19-19' -> 2-1-19-19
-  ⟨(.has [118, 116, 108, 32, 101, 114, 114, 111, 114, 32, 50, 45, 49, 45, 49, 57, 45, 49, 57]), [⟨2, 702, [164, 700, 701], false⟩]⟩,
+  ⟨(.has [118, 116, 108, 32, 101, 114, 114, 111, 114, 32, 50, 45, 49, 45, 49, 57, 45, 49, 57]), [⟨2, 710, [164, 708, 709], false⟩]⟩,
   -- line 92: 'vtl error 2-1-19-16' -> 2-1-19-16
-  ⟨(.has [118, 116, 108, 32, 101, 114, 114, 111, 114, 32, 50, 45, 49, 45, 49, 57, 45, 49, 54]), [⟨2, 694, [164], false⟩]⟩,
-  -- line 97: 'vtl error 2-1-19-1' -> 2-1-19-1
-  ⟨(.has [118, 116, 108, 32, 101, 114, 114, 111, 114, 32, 50, 45, 49, 45, 49, 57, 45, 49]), [⟨2, 645, [643, 44], false⟩]⟩,
-  -- line 101: 'cannot cast non-daily timeperiod to date' -> 2-1-5-1
-  ⟨(.has [99, 97, 110, 110, 111, 116, 32, 99, 97, 115, 116, 32, 110, 111, 110, 45, 100, 97, 105, 108, 121, 32, 116, 105, 109, 101, 112, 101, 114, 105, 111, 100, 32, 116, 111, 32, 100, 97, 116, 101]), [⟨2, 232, [158, 159, 44], false⟩]⟩,
-  -- line 106: 'cannot cast timeinterval to date' -> 2-1-5-1
-  ⟨(.has [99, 97, 110, 110, 111, 116, 32, 99, 97, 115, 116, 32, 116, 105, 109, 101, 105, 110, 116, 101, 114, 118, 97, 108, 32, 116, 111, 32, 100, 97, 116, 101]), [⟨2, 232, [158, 159, 44], false⟩]⟩,
-  -- line 111: 'cannot determine period for interval' -> 2-1-5-1
-  ⟨(.has [99, 97, 110, 110, 111, 116, 32, 100, 101, 116, 101, 114, 109, 105, 110, 101, 32, 112, 101, 114, 105, 111, 100, 32, 102, 111, 114, 32, 105, 110, 116, 101, 114, 118, 97, 108]), [⟨2, 232, [158, 159, 44], false⟩]⟩,
-  -- line 116: ('conversion' and ('timestamp' or 'date')) -> 2-1-19-8
-  ⟨(.and (.has [99, 111, 110, 118, 101, 114, 115, 105, 111, 110]) (.or (.has [116, 105, 109, 101, 115, 116, 97, 109, 112]) (.has [100, 97, 116, 101]))), [⟨2, 672, [657], false⟩]⟩,
-  -- line 125: 'vtl 2-1-15-6' -> 2-1-15-6
-  ⟨(.has [118, 116, 108, 32, 50, 45, 49, 45, 49, 53, 45, 54]), [⟨2, 453, [164], false⟩]⟩,
-  -- line 129: 'vtl 1-1-18-11' -> 1-1-18-11
-  ⟨(.has [118, 116, 108, 32, 49, 45, 49, 45, 49, 56, 45, 49, 49]), [⟨3, 489, [487, 488, 164], false⟩]⟩,
-  -- line 135: ('division by zero' or 'divide by zero') -> 2-1-3-1
-  ⟨(.or (.has [100, 105, 118, 105, 115, 105, 111, 110, 32, 98, 121, 32, 122, 101, 114, 111]) (.has [100, 105, 118, 105, 100, 101, 32, 98, 121, 32, 122, 101, 114, 111])), [⟨2, 217, [164], false⟩]⟩,
-  -- line 137: 'vtl error 2-1-3-1' -> 2-1-3-1
-  ⟨(.has [118, 116, 108, 32, 101, 114, 114, 111, 114, 32, 50, 45, 49, 45, 51, 45, 49]), [⟨2, 217, [164], false⟩]⟩,
-  -- line 141: ('logarithm of zero' or 'logarithm of negative') -> 2-1-15-8
-  ⟨(.or (.has [108, 111, 103, 97, 114, 105, 116, 104, 109, 32, 111, 102, 32, 122, 101, 114, 111]) (.has [108, 111, 103, 97, 114, 105, 116, 104, 109, 32, 111, 102, 32, 110, 101, 103, 97, 116, 105, 118, 101])), [⟨2, 457, [164, 44], false⟩]⟩,
-  -- line 145: 'cannot take logarithm of a negative number' -> 2-1-15-3
-  ⟨(.has [99, 97, 110, 110, 111, 116, 32, 116, 97, 107, 101, 32, 108, 111, 103, 97, 114, 105, 116, 104, 109, 32, 111, 102, 32, 97, 32, 110, 101, 103, 97, 116, 105, 118, 101, 32, 110, 117, 109, 98, 101, 114]), [⟨2, 447, [164, 44], false⟩]⟩
+  ⟨(.has [118, 116, 108, 32, 101, 114, 114, 111, 114, 32, 50, 45, 49, 45, 49, 57, 45, 49, 54]), [⟨2, 702, [164], false⟩]⟩,
+  -- line 97: 'vtl error 2-1-19-21' -> 2-1-19-21
+  ⟨(.has [118, 116, 108, 32, 101, 114, 114, 111, 114, 32, 50, 45, 49, 45, 49, 57, 45, 50, 49]), [⟨2, 715, [655], false⟩]⟩,
+  -- line 101: 'vtl error 2-1-19-1' -> 2-1-19-1
+  ⟨(.has [118, 116, 108, 32, 101, 114, 114, 111, 114, 32, 50, 45, 49, 45, 49, 57, 45, 49]), [⟨2, 653, [651, 44], false⟩]⟩,
+  -- line 105: 'cannot cast non-daily timeperiod to date' -> 2-1-5-1
+  ⟨(.has [99, 97, 110, 110, 111, 116, 32, 99, 97, 115, 116, 32, 110, 111, 110, 45, 100, 97, 105, 108, 121, 32, 116, 105, 109, 101, 112, 101, 114, 105, 111, 100, 32, 116, 111, 32, 100, 97, 116, 101]), [⟨2, 235, [158, 159, 44], false⟩]⟩,
+  -- line 110: 'cannot cast timeinterval to date' -> 2-1-5-1
+  ⟨(.has [99, 97, 110, 110, 111, 116, 32, 99, 97, 115, 116, 32, 116, 105, 109, 101, 105, 110, 116, 101, 114, 118, 97, 108, 32, 116, 111, 32, 100, 97, 116, 101]), [⟨2, 235, [158, 159, 44], false⟩]⟩,
+  -- line 115: 'cannot determine period for interval' -> 2-1-5-1
+  ⟨(.has [99, 97, 110, 110, 111, 116, 32, 100, 101, 116, 101, 114, 109, 105, 110, 101, 32, 112, 101, 114, 105, 111, 100, 32, 102, 111, 114, 32, 105, 110, 116, 101, 114, 118, 97, 108]), [⟨2, 235, [158, 159, 44], false⟩]⟩,
+  -- line 120: ('conversion' and ('timestamp' or 'date')) -> 2-1-19-8
+  ⟨(.and (.has [99, 111, 110, 118, 101, 114, 115, 105, 111, 110]) (.or (.has [116, 105, 109, 101, 115, 116, 97, 109, 112]) (.has [100, 97, 116, 101]))), [⟨2, 680, [665], false⟩]⟩,
+  -- line 129: 'vtl 2-1-15-6' -> 2-1-15-6
+  ⟨(.has [118, 116, 108, 32, 50, 45, 49, 45, 49, 53, 45, 54]), [⟨2, 456, [164], false⟩]⟩,
+  -- line 133: 'vtl 1-1-18-11' -> 1-1-18-11
+  ⟨(.has [118, 116, 108, 32, 49, 45, 49, 45, 49, 56, 45, 49, 49]), [⟨3, 494, [492, 493, 164], false⟩]⟩,
+  -- line 139: ('division by zero' or 'divide by zero') -> 2-1-3-1
+  ⟨(.or (.has [100, 105, 118, 105, 115, 105, 111, 110, 32, 98, 121, 32, 122, 101, 114, 111]) (.has [100, 105, 118, 105, 100, 101, 32, 98, 121, 32, 122, 101, 114, 111])), [⟨2, 220, [164], false⟩]⟩,
+  -- line 141: 'vtl error 2-1-3-1' -> 2-1-3-1
+  ⟨(.has [118, 116, 108, 32, 101, 114, 114, 111, 114, 32, 50, 45, 49, 45, 51, 45, 49]), [⟨2, 220, [164], false⟩]⟩,
+  -- line 145: ('logarithm of zero' or 'logarithm of negative') -> 2-1-15-8
+  ⟨(.or (.has [108, 111, 103, 97, 114, 105, 116, 104, 109, 32, 111, 102, 32, 122, 101, 114, 111]) (.has [108, 111, 103, 97, 114, 105, 116, 104, 109, 32, 111, 102, 32, 110, 101, 103, 97, 116, 105, 118, 101])), [⟨2, 460, [164, 44], false⟩]⟩,
+  -- line 149: 'cannot take logarithm of a negative number' -> 2-1-15-3
+  ⟨(.has [99, 97, 110, 110, 111, 116, 32, 116, 97, 107, 101, 32, 108, 111, 103, 97, 114, 105, 116, 104, 109, 32, 111, 102, 32, 97, 32, 110, 101, 103, 97, 116, 105, 118, 101, 32, 110, 117, 109, 98, 101, 114]), [⟨2, 450, [164, 44], false⟩]⟩
 ]
 
 /-- map_duckdb_error (io/_validation.py) -/
@@ -60,49 +62,49 @@ def mapper2 : List Rule := [
 def mappers : List (List Rule) := [mapper0, mapper1, mapper2]
 
 def dbSites : List DbSite := [
-  ⟨979, 980, 235, 3, 0⟩,  -- io/_execution.py:_build_dataset_fetch_select:235 .execute phase=fetch UNWRAPPED
-  ⟨979, 980, 260, 3, 0⟩,  -- io/_execution.py:_build_dataset_fetch_select:260 .fetchone phase=fetch UNWRAPPED
-  ⟨979, 981, 373, 5, 0⟩,  -- io/_execution.py:cleanup_scheduled_datasets:373 .execute phase=other UNWRAPPED
-  ⟨979, 981, 384, 5, 0⟩,  -- io/_execution.py:cleanup_scheduled_datasets:384 .execute phase=other UNWRAPPED
-  ⟨979, 981, 387, 5, 0⟩,  -- io/_execution.py:cleanup_scheduled_datasets:387 .execute phase=other UNWRAPPED
-  ⟨979, 982, 422, 3, 0⟩,  -- io/_execution.py:fetch_result:422 .execute phase=fetch UNWRAPPED
-  ⟨979, 982, 423, 3, 0⟩,  -- io/_execution.py:fetch_result:423 .fetchdf phase=fetch UNWRAPPED
-  ⟨979, 982, 455, 3, 0⟩,  -- io/_execution.py:fetch_result:455 .fetchdf phase=fetch UNWRAPPED
-  ⟨979, 983, 531, 1, 2⟩,  -- io/_execution.py:execute_queries:531 .execute phase=stmt _map_query_error
-  ⟨976, 935, 70, 0, 0⟩,  -- io/_io.py:_validate_loaded_table:70 .fetchone phase=load UNWRAPPED
-  ⟨976, 935, 81, 0, 0⟩,  -- io/_io.py:_validate_loaded_table:81 .execute phase=load UNWRAPPED
-  ⟨976, 936, 98, 0, 4⟩,  -- io/_io.py:_normalize_time_period_columns:98 .execute phase=load <raise 0-3-1-6>
-  ⟨976, 984, 140, 0, 1⟩,  -- io/_io.py:_detect_csv_format:140 .fetchone phase=load swallowed
-  ⟨976, 984, 155, 0, 1⟩,  -- io/_io.py:_detect_csv_format:155 .sql phase=load swallowed
-  ⟨976, 984, 160, 0, 1⟩,  -- io/_io.py:_detect_csv_format:160 .sql phase=load swallowed
-  ⟨976, 985, 186, 0, 3⟩,  -- io/_io.py:_read_parquet_columns:186 .sql phase=load map_duckdb_error
-  ⟨976, 937, 238, 0, 0⟩,  -- io/_io.py:load_datapoints_duckdb:238 .execute phase=load UNWRAPPED
-  ⟨976, 937, 304, 0, 3⟩,  -- io/_io.py:load_datapoints_duckdb:304 .execute phase=load map_duckdb_error
-  ⟨976, 937, 307, 0, 0⟩,  -- io/_io.py:load_datapoints_duckdb:307 .execute phase=load UNWRAPPED
-  ⟨976, 937, 310, 0, 0⟩,  -- io/_io.py:load_datapoints_duckdb:310 .execute phase=load UNWRAPPED
-  ⟨976, 937, 316, 0, 0⟩,  -- io/_io.py:load_datapoints_duckdb:316 .table phase=load UNWRAPPED
-  ⟨976, 986, 325, 0, 0⟩,  -- io/_io.py:_create_empty_table:325 .execute phase=load UNWRAPPED
-  ⟨976, 986, 326, 0, 0⟩,  -- io/_io.py:_create_empty_table:326 .table phase=load UNWRAPPED
-  ⟨976, 938, 338, 0, 0⟩,  -- io/_io.py:_load_parquet:338 .execute phase=load UNWRAPPED
-  ⟨976, 938, 369, 0, 3⟩,  -- io/_io.py:_load_parquet:369 .execute phase=load map_duckdb_error
-  ⟨976, 938, 372, 0, 0⟩,  -- io/_io.py:_load_parquet:372 .execute phase=load UNWRAPPED
-  ⟨976, 938, 375, 0, 0⟩,  -- io/_io.py:_load_parquet:375 .execute phase=load UNWRAPPED
-  ⟨976, 938, 379, 0, 0⟩,  -- io/_io.py:_load_parquet:379 .table phase=load UNWRAPPED
-  ⟨976, 939, 419, 4, 0⟩,  -- io/_io.py:save_datapoints_duckdb:419 .execute phase=write UNWRAPPED
-  ⟨976, 939, 422, 4, 0⟩,  -- io/_io.py:save_datapoints_duckdb:422 .execute phase=write UNWRAPPED
-  ⟨976, 987, 650, 0, 0⟩,  -- io/_io.py:register_dataframes:650 .execute phase=load UNWRAPPED
-  ⟨976, 987, 654, 0, 0⟩,  -- io/_io.py:register_dataframes:654 .register phase=load UNWRAPPED
-  ⟨976, 987, 658, 0, 3⟩,  -- io/_io.py:register_dataframes:658 .fetchall phase=load map_duckdb_error
-  ⟨976, 987, 664, 0, 3⟩,  -- io/_io.py:register_dataframes:664 .execute phase=load map_duckdb_error
-  ⟨976, 987, 669, 0, 0⟩,  -- io/_io.py:register_dataframes:669 .execute phase=load UNWRAPPED
-  ⟨976, 987, 672, 0, 0⟩,  -- io/_io.py:register_dataframes:672 .unregister phase=load UNWRAPPED
-  ⟨988, 989, 62, 2, 0⟩,  -- io/_time_handling.py:apply_time_period_representation:62 .execute phase=repr UNWRAPPED
-  ⟨988, 989, 74, 2, 0⟩,  -- io/_time_handling.py:apply_time_period_representation:74 .execute phase=repr UNWRAPPED
-  ⟨978, 942, 280, 0, 0⟩,  -- io/_validation.py:validate_no_duplicates:280 .fetchone phase=load UNWRAPPED
-  ⟨978, 944, 389, 0, 0⟩  -- io/_validation.py:validate_temporal_columns:389 .fetchone phase=load UNWRAPPED
+  ⟨984, 985, 239, 3, 0⟩,  -- io/_execution.py:_build_dataset_fetch_select:239 .execute phase=fetch UNWRAPPED
+  ⟨984, 985, 264, 3, 0⟩,  -- io/_execution.py:_build_dataset_fetch_select:264 .fetchone phase=fetch UNWRAPPED
+  ⟨984, 986, 377, 5, 0⟩,  -- io/_execution.py:cleanup_scheduled_datasets:377 .execute phase=other UNWRAPPED
+  ⟨984, 986, 388, 5, 0⟩,  -- io/_execution.py:cleanup_scheduled_datasets:388 .execute phase=other UNWRAPPED
+  ⟨984, 986, 391, 5, 0⟩,  -- io/_execution.py:cleanup_scheduled_datasets:391 .execute phase=other UNWRAPPED
+  ⟨984, 987, 432, 3, 0⟩,  -- io/_execution.py:fetch_result:432 .execute phase=fetch UNWRAPPED
+  ⟨984, 987, 433, 3, 0⟩,  -- io/_execution.py:fetch_result:433 .fetchdf phase=fetch UNWRAPPED
+  ⟨984, 987, 465, 3, 0⟩,  -- io/_execution.py:fetch_result:465 .fetchdf phase=fetch UNWRAPPED
+  ⟨984, 988, 541, 1, 2⟩,  -- io/_execution.py:execute_queries:541 .execute phase=stmt _map_query_error
+  ⟨981, 940, 70, 0, 0⟩,  -- io/_io.py:_validate_loaded_table:70 .fetchone phase=load UNWRAPPED
+  ⟨981, 940, 81, 0, 0⟩,  -- io/_io.py:_validate_loaded_table:81 .execute phase=load UNWRAPPED
+  ⟨981, 941, 98, 0, 4⟩,  -- io/_io.py:_normalize_time_period_columns:98 .execute phase=load <raise 0-3-1-6>
+  ⟨981, 989, 140, 0, 1⟩,  -- io/_io.py:_detect_csv_format:140 .fetchone phase=load swallowed
+  ⟨981, 989, 155, 0, 1⟩,  -- io/_io.py:_detect_csv_format:155 .sql phase=load swallowed
+  ⟨981, 989, 160, 0, 1⟩,  -- io/_io.py:_detect_csv_format:160 .sql phase=load swallowed
+  ⟨981, 990, 186, 0, 3⟩,  -- io/_io.py:_read_parquet_columns:186 .sql phase=load map_duckdb_error
+  ⟨981, 942, 238, 0, 0⟩,  -- io/_io.py:load_datapoints_duckdb:238 .execute phase=load UNWRAPPED
+  ⟨981, 942, 304, 0, 3⟩,  -- io/_io.py:load_datapoints_duckdb:304 .execute phase=load map_duckdb_error
+  ⟨981, 942, 307, 0, 0⟩,  -- io/_io.py:load_datapoints_duckdb:307 .execute phase=load UNWRAPPED
+  ⟨981, 942, 310, 0, 0⟩,  -- io/_io.py:load_datapoints_duckdb:310 .execute phase=load UNWRAPPED
+  ⟨981, 942, 316, 0, 0⟩,  -- io/_io.py:load_datapoints_duckdb:316 .table phase=load UNWRAPPED
+  ⟨981, 991, 325, 0, 0⟩,  -- io/_io.py:_create_empty_table:325 .execute phase=load UNWRAPPED
+  ⟨981, 991, 326, 0, 0⟩,  -- io/_io.py:_create_empty_table:326 .table phase=load UNWRAPPED
+  ⟨981, 943, 338, 0, 0⟩,  -- io/_io.py:_load_parquet:338 .execute phase=load UNWRAPPED
+  ⟨981, 943, 369, 0, 3⟩,  -- io/_io.py:_load_parquet:369 .execute phase=load map_duckdb_error
+  ⟨981, 943, 372, 0, 0⟩,  -- io/_io.py:_load_parquet:372 .execute phase=load UNWRAPPED
+  ⟨981, 943, 375, 0, 0⟩,  -- io/_io.py:_load_parquet:375 .execute phase=load UNWRAPPED
+  ⟨981, 943, 379, 0, 0⟩,  -- io/_io.py:_load_parquet:379 .table phase=load UNWRAPPED
+  ⟨981, 944, 419, 4, 0⟩,  -- io/_io.py:save_datapoints_duckdb:419 .execute phase=write UNWRAPPED
+  ⟨981, 944, 422, 4, 0⟩,  -- io/_io.py:save_datapoints_duckdb:422 .execute phase=write UNWRAPPED
+  ⟨981, 992, 650, 0, 0⟩,  -- io/_io.py:register_dataframes:650 .execute phase=load UNWRAPPED
+  ⟨981, 992, 654, 0, 0⟩,  -- io/_io.py:register_dataframes:654 .register phase=load UNWRAPPED
+  ⟨981, 992, 658, 0, 3⟩,  -- io/_io.py:register_dataframes:658 .fetchall phase=load map_duckdb_error
+  ⟨981, 992, 664, 0, 3⟩,  -- io/_io.py:register_dataframes:664 .execute phase=load map_duckdb_error
+  ⟨981, 992, 669, 0, 0⟩,  -- io/_io.py:register_dataframes:669 .execute phase=load UNWRAPPED
+  ⟨981, 992, 672, 0, 0⟩,  -- io/_io.py:register_dataframes:672 .unregister phase=load UNWRAPPED
+  ⟨993, 994, 62, 2, 2⟩,  -- io/_time_handling.py:apply_time_period_representation:62 .execute phase=repr _map_query_error
+  ⟨993, 994, 74, 2, 2⟩,  -- io/_time_handling.py:apply_time_period_representation:74 .execute phase=repr _map_query_error
+  ⟨983, 947, 280, 0, 0⟩,  -- io/_validation.py:validate_no_duplicates:280 .fetchone phase=load UNWRAPPED
+  ⟨983, 949, 389, 0, 0⟩  -- io/_validation.py:validate_temporal_columns:389 .fetchone phase=load UNWRAPPED
 ]
 
 /-- certificate (recomputed by the kernel in Props/C32): phases with an unwrapped DuckDB call -/
-def claimedUnwrapped : List Nat := [0, 2, 3, 4]
+def claimedUnwrapped : List Nat := [0, 3, 4]
 
 end VtlModel.Gen.ErrorMap
